@@ -50,6 +50,14 @@ pub struct Scn {
     /// the signal) | "limit" (admits as many connections as there are scripted clients, then none)
     #[serde(default)]
     pub condition: String,
+    /// a second application runs in the same process on another port, with its own shutdown
+    /// receiver and a client of its own: a signal sent to the first must leave it alone
+    #[serde(default)]
+    pub bystander: bool,
+    /// the application is asked to listen on port 0 (the system picks the port); no client can
+    /// know it, so the case has no connections: the signal alone has to end `run`
+    #[serde(default)]
+    pub port_zero: bool,
 }
 
 /// Application state read by the connection conditions.
@@ -96,7 +104,7 @@ impl Prop for C20 {
         }
     }
     fn rule(&self) -> &'static str {
-        "One case = an App with a shutdown receiver (unbounded or rendezvous channel), a pool of 1..8 threads, a bind address (127.0.0.1 / 0.0.0.0 / [::], with the strict-unspecified-address knob), 0..16 (one case in forty 80..100) client connections each scripted to be in one of {just connected, idle keep-alive, half-sent request, handler running 5 ms / 2 s of virtual time, 150 KB response being written to a 512-byte-window reader, WebSocket open, plain request} when the signal is sent at a chosen virtual instant (before run is called, before the first connection, between or concurrently with connects, with the pool fully occupied), under one seeded schedule; in two cases of five the application has a connection condition that refuses connections when the signal comes (drain mode switched on just before the signal, or a connection limit that the scripted clients have used up), so the server's own wake-up connection is not admitted either. Distinct = distinct (traffic-state multiset at the signal, pool size vs. connections, signal timing class, outcome); non-trivial = at least one connection open at the instant of the signal."
+        "One case = an App with a shutdown receiver (unbounded or rendezvous channel), a pool of 1..8 threads, a bind address (127.0.0.1 / 0.0.0.0 / [::], with the strict-unspecified-address knob; one case in 25 on port 0, without clients), 0..16 (one case in forty 80..100) client connections each scripted to be in one of {just connected, idle keep-alive, half-sent request, handler running 5 ms / 2 s of virtual time, 150 KB response being written to a 512-byte-window reader, WebSocket open, plain request} when the signal is sent at a chosen virtual instant (before run is called, before the first connection, between or concurrently with connects, with the pool fully occupied), under one seeded schedule; in two cases of five the application has a connection condition that refuses connections when the signal comes (drain mode switched on just before the signal, or a connection limit that the scripted clients have used up), so the server's own wake-up connection is not admitted either; in one case of eight a second application runs in the same process on another port with its own shutdown receiver and client, and must neither be disturbed by the first one's signal nor fail to end on its own. Distinct = distinct (traffic-state multiset at the signal, pool size vs. connections, signal timing class, outcome); non-trivial = at least one connection open at the instant of the signal."
     }
     fn assumptions(&self) -> Vec<String> {
         vec![
@@ -107,7 +115,7 @@ impl Prop for C20 {
         ]
     }
     fn expected_counters(&self) -> Vec<&'static str> {
-        vec!["c20.signal_before_run", "c20.signal_before_first_connection", "c20.signal_with_open_connections", "c20.pool_fully_occupied", "c20.state.idle-keepalive", "c20.state.half-request", "c20.state.handler-long", "c20.state.slow-reader", "c20.state.websocket", "c20.state.connected", "c20.bind_unspecified", "c20.rendezvous_channel", "c20.eighty_or_more_connections", "c20.connection_condition.drain", "c20.connection_condition.limit", "c20.rebinds"]
+        vec!["c20.signal_before_run", "c20.signal_before_first_connection", "c20.signal_with_open_connections", "c20.pool_fully_occupied", "c20.state.idle-keepalive", "c20.state.half-request", "c20.state.handler-long", "c20.state.slow-reader", "c20.state.websocket", "c20.state.connected", "c20.bind_unspecified", "c20.rendezvous_channel", "c20.listening_on_port_zero", "c20.second_app_in_the_process", "c20.eighty_or_more_connections", "c20.connection_condition.drain", "c20.connection_condition.limit", "c20.rebinds"]
     }
     fn real_vs_stub(&self) -> (Vec<&'static str>, Vec<&'static str>) {
         (vec!["App::run (accept loop, AtomicBool flag, wake-up connect, unspecified_socket_to_loopback), ThreadPool::{stop, drop}, client_handler, websocket_handler"], vec!["threads, mpsc, atomics, TCP listener/backlog, virtual sleep in handlers (humsim)"])
@@ -150,7 +158,7 @@ impl Prop for C20 {
         sim.strict_unspecified = rng.chance(1, 3);
         sim.cpu_tick_max_ns = Some(1000);
         sim.max_decisions = 600_000;
-        serde_json::to_value(Scn { sim, threads: [1usize, 1, 2, 4, 8][rng.usize_below(5)], bind: ["127.0.0.1", "0.0.0.0", "[::]"][rng.usize_below(3)].into(), signal_ms, before_run: signal_ms == 0 && rng.chance(1, 2), rendezvous: rng.chance(1, 3), conns, condition: ["", "", "", "drain", "limit"][rng.usize_below(5)].into() }).unwrap()
+        serde_json::to_value(Scn { sim, threads: [1usize, 1, 2, 4, 8][rng.usize_below(5)], bind: ["127.0.0.1", "0.0.0.0", "[::]"][rng.usize_below(3)].into(), signal_ms, before_run: signal_ms == 0 && rng.chance(1, 2), rendezvous: rng.chance(1, 3), conns, condition: ["", "", "", "drain", "limit"][rng.usize_below(5)].into(), bystander: Rng::new(humsim::rng::mix(&[run_seed(seed, "C20", idx), 0xC20_0003])).chance(1, 8), port_zero: Rng::new(humsim::rng::mix(&[run_seed(seed, "C20", idx), 0xC20_0004])).chance(1, 25) }).unwrap()
     }
 
     fn execute(&self, scenario: &Value) -> RunResult {
@@ -163,12 +171,21 @@ impl Prop for C20 {
             }
         };
         let bind = if ["127.0.0.1", "0.0.0.0", "[::]"].contains(&scn.bind.as_str()) { scn.bind.clone() } else { "127.0.0.1".to_string() };
-        let bind_addr: SocketAddr = format!("{}:8099", bind).parse().unwrap();
+        let mut scn = scn;
+        if scn.port_zero {
+            scn.conns.clear();
+            scn.bystander = false;
+            rr.count("c20.listening_on_port_zero", 1);
+        }
+        let bind_addr: SocketAddr = format!("{}:{}", bind, if scn.port_zero { 0 } else { 8099 }).parse().unwrap();
         let connect_to: SocketAddr = if bind == "[::]" { "[::1]:8099".parse().unwrap() } else { "127.0.0.1:8099".parse().unwrap() };
         let outs: Vec<Arc<Mutex<COut>>> = scn.conns.iter().map(|_| Arc::new(Mutex::new(COut::default()))).collect();
         // (signal sent ns, run returned ns or None, run result ok, rebind result)
         let meta: Arc<Mutex<(u64, Option<u64>, bool, Option<String>)>> = Arc::new(Mutex::new((0, None, false, None)));
         let (scn2, outs2, meta2) = (scn.clone(), outs.clone(), meta.clone());
+        let by_out_outer: Arc<Mutex<(bool, bool, bool, Option<bool>)>> = Arc::new(Mutex::new((false, false, false, None)));
+        let by_out2 = by_out_outer.clone();
+        let by_out_in = by_out_outer.clone();
         let outcome = sim::run(scn.sim.to_config(), move || {
             let scn = scn2;
             let cstate = CState { limit: scn.conns.len(), ..Default::default() };
@@ -247,6 +264,40 @@ impl Prop for C20 {
                 m.1 = Some(sim::now_ns());
                 m.2 = ok;
             });
+            // the bystander application and its client
+            let by_addr: SocketAddr = "127.0.0.1:8097".parse().unwrap();
+            let by_out = by_out_in;
+            let mut by_tx = None;
+            let mut by_runner = None;
+            let mut by_client = None;
+            if scn.bystander {
+                let app_b: App<()> = App::new_with_config(2, ()).with_route("/ok", |_r: Request, _s: Arc<()>| Response::new(StatusCode::OK, "bystander-body"));
+                let (tx_b, rx_b) = humsim::sync::mpsc::channel::<()>();
+                let app_b = app_b.with_shutdown(rx_b);
+                by_tx = Some(tx_b);
+                by_runner = Some(humsim::thread::spawn(move || app_b.run(by_addr).is_ok()));
+                let (out, signal_ms) = (by_out.clone(), scn.signal_ms);
+                by_client = Some(humsim::thread::spawn(move || {
+                    let get = |conn: &str| ReqModel { method: "GET".into(), target: "/ok".into(), version: "HTTP/1.1".into(), headers: vec![("Host".into(), "sim".into()), ("Connection".into(), conn.into())], body: None }.render();
+                    let ok = |log: &RecvLog, n: usize| { let (rs, _) = parse_stream(&log.bytes, false); rs.len() >= n && rs[n - 1].status == 200 && rs[n - 1].body.starts_with(b"bystander-body") };
+                    let mut s = match connect_retry(None, by_addr, 50) { Ok(s) => s, Err(_) => return };
+                    let mut log = RecvLog::new();
+                    write_all(&mut s, &get("keep-alive"));
+                    let _ = read_responses(&mut s, &mut log, 1, Duration::from_secs(10));
+                    out.lock().unwrap().0 = ok(&log, 1);
+                    // well after the other application's signal: the same connection, then a new one
+                    humsim::thread::sleep(Duration::from_millis(signal_ms + 400));
+                    write_all(&mut s, &get("keep-alive"));
+                    let _ = read_responses(&mut s, &mut log, 2, Duration::from_secs(10));
+                    out.lock().unwrap().1 = ok(&log, 2);
+                    if let Ok(mut s2) = connect_retry(None, by_addr, 5) {
+                        let mut log2 = RecvLog::new();
+                        write_all(&mut s2, &get("close"));
+                        let _ = read_responses(&mut s2, &mut log2, 1, Duration::from_secs(10));
+                        out.lock().unwrap().2 = ok(&log2, 1);
+                    }
+                }));
+            }
             // clients
             let mut hs = Vec::new();
             for (cid, c) in scn.conns.iter().enumerate() {
@@ -350,6 +401,18 @@ impl Prop for C20 {
             for h in hs {
                 let _ = h.join();
             }
+            if let (Some(c), Some(tx_b), Some(r)) = (by_client, by_tx, by_runner) {
+                let _ = c.join();
+                // its own signal ends the bystander
+                let _ = tx_b.send(());
+                let mut waited = 0;
+                while !r.is_finished() && waited < 3000 {
+                    humsim::thread::sleep(Duration::from_millis(1));
+                    waited += 1;
+                }
+                by_out.lock().unwrap().3 = Some(r.is_finished() && TcpListener::bind(by_addr).is_ok());
+                drop(tx_b);
+            }
             drop(sender_kept_alive);
         });
         rr.absorb(&outcome);
@@ -385,6 +448,16 @@ impl Prop for C20 {
         }
         let timing = if scn.before_run { "before-run" } else if open_at_signal.is_empty() { "before-first-connection" } else if occupying >= scn.threads.clamp(1, 8) { "pool-occupied" } else { "with-traffic" };
         let cfg = format!("{}:{}:{}", bind, timing, if scn.rendezvous { "rendezvous" } else { "channel" });
+        if scn.bystander {
+            rr.count("c20.second_app_in_the_process", 1);
+            let (first, after, fresh, ended) = *by_out2.lock().unwrap();
+            // (judged only if the bystander served its first request: it was up)
+            if first && !(after && fresh) {
+                rr.violate("C20/R5", format!("other-app-disturbed-by-the-signal:{}", if !after { "keep-alive-connection" } else { "new-connection" }), format!("a second application in the same process, with its own shutdown receiver, served its client before the first application's signal but afterwards answered: same connection {}, new connection {}", after, fresh));
+            } else if first && ended == Some(false) {
+                rr.violate("C20/R5", "other-app-does-not-end-on-its-own-signal", "the second application did not return (or free its port) within 3 virtual seconds of its own signal".to_string());
+            }
+        }
         if outcome.panics.iter().any(|p| p.location.contains("/repo/")) {
             let p = outcome.panics.iter().find(|p| p.location.contains("/repo/")).unwrap();
             let site = p.location.rsplit('/').next().unwrap_or("").split(':').take(2).collect::<Vec<_>>().join(":");
